@@ -26,10 +26,15 @@ def setSubtractSpec : Fn.Spec :=
   { params := [{ ty := .set .dyn, allowDynamic := true }, { ty := .set .dyn, allowDynamic := true }],
     refine := some refineNN }
 
-/-- the loop of `setOperationReturnType` collecting `etys` -/
-def setOpElemTypes : List Value → Res (List Ty)
-  | [] => .ok []
+/-- the loop of `setOperationReturnType` collecting `etys`; `.ok none` is the early
+`return cty.DynamicPseudoType, nil` taken at the first argument whose type is the
+dynamic pseudo-type (`arg.Type() == cty.DynamicPseudoType`; since /repo 8027069 — before
+that `ElementType()` panicked on it) -/
+def setOpElemTypes : List Value → Res (Option (List Ty))
+  | [] => .ok (some [])
   | arg :: rest =>
+    if arg.ty.isDyn then .ok none
+    else
     match elementTypeOf arg.ty with
     | .ok ty =>
       let skip : Res Bool :=
@@ -39,16 +44,18 @@ def setOpElemTypes : List Value → Res (List Ty)
           | .ok l => .ok (l == 0 && ty.equals .dyn)
           | r => Res.cast r
       (match skip, setOpElemTypes rest with
-       | .ok true, .ok ts => .ok ts
-       | .ok false, .ok ts => .ok (ty :: ts)
+       | .ok _, .ok none => .ok none
+       | .ok true, .ok (some ts) => .ok (some ts)
+       | .ok false, .ok (some ts) => .ok (some (ty :: ts))
        | .ok _, r => r
        | r, _ => Res.cast r)
     | r => Res.cast r
 
 def setOpType (E : Env) : Fn.TypeFn := fun args =>
   match setOpElemTypes args with
-  | .ok [] => .ok (.set .dyn)
-  | .ok etys =>
+  | .ok none => .ok .dyn
+  | .ok (some []) => .ok (.set .dyn)
+  | .ok (some etys) =>
     (match E.unify etys with
      | .ok (some newEty) => .ok (.set newEty)
      | .ok none => .err "given sets must all have compatible element types"
@@ -101,22 +108,26 @@ def setOpLoop (E : Env) (k : SetOpKind) (retTy ety : Ty) : List Value → SetImp
          | r => Res.cast r)
     | r => Res.cast r
 
-def setOpImpl (E : Env) (k : SetOpKind) : Fn.ImplFn
-  | first0 :: rest, retTy =>
-    match convertTo E first0 retTy with
-    | .err _ => .err "conversion failed"
-    | .ok first =>
-      if !k.allowUnknowns && !first.whollyKnown then .ok (Value.unknown retTy)
-      else
-        (match asValueSet E first with
-         | .ok (ety, set) =>
-           (match setOpLoop E k retTy ety rest set with
-            | .ok none => .ok (Value.unknown retTy)
-            | .ok (some s) => .ok (ofSetImpl ety (SetImpl.copy s))
-            | r => Res.cast r)
-         | r => Res.cast r)
-    | r => Res.cast r
-  | _, _ => oob
+def setOpImpl (E : Env) (k : SetOpKind) : Fn.ImplFn := fun args retTy =>
+  -- `if retType == cty.DynamicPseudoType { return cty.DynamicVal, nil }` (before `args[0]`)
+  if retTy.isDyn then .ok Value.dynVal
+  else
+  match args with
+  | first0 :: rest =>
+    (match convertTo E first0 retTy with
+     | .err _ => .err "conversion failed"
+     | .ok first =>
+       if !k.allowUnknowns && !first.whollyKnown then .ok (Value.unknown retTy)
+       else
+         (match asValueSet E first with
+          | .ok (ety, set) =>
+            (match setOpLoop E k retTy ety rest set with
+             | .ok none => .ok (Value.unknown retTy)
+             | .ok (some s) => .ok (ofSetImpl ety (SetImpl.copy s))
+             | r => Res.cast r)
+          | r => Res.cast r)
+     | r => Res.cast r)
+  | [] => oob
 
 end Stdlib
 end CtyModel
